@@ -56,6 +56,7 @@ class ILEval:
         self.n_subscripts = 0
         self.n_masked_subscripts = 0
         self.n_data_dependent = 0
+        self.n_nonidentity = 0
 
     # -- entry
     def run(self, expr: Any) -> np.ndarray:
@@ -235,6 +236,8 @@ class ILEval:
         ixs = []
         fullmask = None
         for ax, ie in enumerate(idx):
+            if not isinstance(ie, prim.Variable):
+                self.n_nonidentity += 1
             iv = self.ev(ie, env, mask)
             iva = np.asarray(iv)
             if iva.dtype.kind not in "iub":
